@@ -7,7 +7,7 @@
    correspondence without failing input -> VIOLATION ... no-failing-input-found
 4. write evidence/<Cxx>.json
 """
-import argparse, collections, hashlib, json, os, random, sys, time, traceback
+import argparse, collections, hashlib, json, os, random, re, sys, time, traceback
 sys.path.insert(0, os.path.dirname(os.path.abspath(__file__)))
 import common
 from common import *
@@ -122,8 +122,10 @@ class Ctx:
 
 
 # ------------------------------------------------------------------ the proved tie (translator) and its falsifier
-EXT_PIDS = {"C01", "C02", "C03", "C04", "C05", "C06", "C07", "C08", "C09", "C12", "C13", "C14", "C15", "C16"}
+EXT_PIDS = {"C01", "C02", "C03", "C04", "C05", "C06", "C07", "C08", "C09", "C12", "C13", "C14", "C15", "C16", "C18"}
 TOOLPY = "/opt/veriftools/pyvenv/bin/python"
+
+CONFIG_DEP = re.compile(r"#\[cfg\]|conditionally compiled|depends on the\s+build configuration|build configuration")
 
 UNIT_CRATE = {"XorShiftRng": "rand_xorshift", "JitterRng": "rand_jitter", "JitterLfsr": "rand_jitter", "EcState": "rand_jitter",
               "Hc128Fns": "rand_hc", "Hc128Core": "rand_hc", "IsaacCore": "rand_isaac", "Isaac64Core": "rand_isaac"}
@@ -163,6 +165,11 @@ def ext_stage(ctx, ob, pid):
     except Exception:
         exp = {}
     missing = sorted(k for k, v in exp.items() if pid in v["props"] and k not in res["theorems"])
+    if pid in ("C12", "C14", "C18"):
+        # functions (of any property) that left the fragment because their behaviour depends on the build configuration
+        def _why(k):
+            return str(((res["report"].get(k.split(".")[0]) or {}).get("skipped") or {}).get(k.split(".", 1)[1], ""))
+        missing = sorted(set(missing) | {k for k in exp if k not in res["theorems"] and CONFIG_DEP.search(_why(k))})
     broken = sorted(k for k, v in mine.items() if not v["ok"])
     info.update(ran=True, key=res["key"], cached=res.get("cached"), theorems=len(mine), proved=len(mine) - len(broken),
                 broken=broken, left_fragment=missing,
@@ -206,6 +213,15 @@ def ext_stage(ctx, ob, pid):
                 ob["broken"].append(("ExtTie." + name, (mine[name].get("error") or "")[:300]))
         else:
             unit = name.split(".")[0]
+            why = str(((res["report"].get(unit) or {}).get("skipped") or {}).get(name.split(".", 1)[1], ""))
+            if CONFIG_DEP.search(why) and pid in ("C12", "C14", "C18"):
+                # the function left the fragment because what it does depends on the build configuration (a #[cfg] inside its
+                # body / above it, an effectful argument of a log macro or debug assertion): the model has ONE meaning for it,
+                # so "same behaviour in every profile / feature set" (C18), "the documented procedure" (C12) and "no panic in
+                # any configuration" (C14) are no longer shown for it — the configurations built by the sampled tie still run
+                ob["broken"].append(("ExtTie." + name, "left the translatable fragment because its behaviour depends on the build "
+                                     "configuration: " + why[:220]))
+                continue
             ufile = (res["report"].get(unit) or {}).get("file") or UNIT_CRATE.get(unit, "")
             stat = [d for c, n, d in common.new_mutable_statics() if ufile.startswith(c) or (not ufile and c in ("rand_xoshiro", "rand_xorshift"))]
             if stat and not (st and st <= {"same", "equivalent"}):
